@@ -311,7 +311,29 @@ def run_histories(chk, stats):
         env.configure_basic()
         simnet.install(copy.deepcopy(pop))
         a = ScriptJob.from_string(first_text)
+        enc = lambda job: None if job.program is None else [vmwire.enc_instr_fixed(x) for x in job.program]  # noqa
+        a_before, a_errors = enc(a), a.compile_errors
         b = ScriptJob.from_string(second_text)
+        # compiling ANOTHER job (b, accepted or rejected) leaves this job's program and messages alone,
+        # and this job then runs as it would have run alone
+        chk.count()
+        if enc(a) != a_before or a.compile_errors != a_errors:
+            chk.violation('compile-alters-another-job',
+                          'after another job compiled {!r}, the job that had compiled {!r} holds {} (before: {}) '
+                          'and reports {!r}'.format(second_text[:60], first_text[:60],
+                                                    'no program' if enc(a) is None else '{} instructions'.format(len(enc(a))),
+                                                    'no program' if a_before is None else '{} instructions'.format(len(a_before)),
+                                                    (a.compile_errors or '').strip()[:80]),
+                          {'first': first_text, 'second': second_text})
+        elif a.program is not None:
+            alone = ScriptJob.from_string(first_text)
+            want_a, _ = run_once(alone, pop)
+            got_a, _ = run_once(a, pop)
+            if got_a != want_a:
+                chk.violation('compile-alters-another-job',
+                              'a job compiled {!r}, another job then compiled {!r}; run afterwards the first gives {} '
+                              'instead of {}'.format(first_text[:60], second_text[:60], got_a[:5], want_a[:5]),
+                              {'first': first_text, 'second': second_text})
         if b.program is None:
             continue
         if a.program is not None:
